@@ -1,5 +1,7 @@
 """Observation helpers on real objects (the library is imported lazily from the tree under test)."""
 
+import zlib
+
 from .ref import tables as T
 
 
@@ -31,6 +33,13 @@ def construct(fam, vec):
         return cls(vec)
     if e == "rh":
         score = cls(vec).rh_vector().split("/")[0]
+        if zlib.crc32(vec.encode("utf-8")) & 1:
+            # the same number written with more digits than a float holds; a reading that refuses
+            # such a text is admitted (C12), then the plain text is used
+            try:
+                return cls.from_rh_vector(score + "0" * 20 + "1/" + vec)
+            except Exception:  # noqa
+                pass
         return cls.from_rh_vector(score + "/" + vec)
     if e == "text":
         from cvss.parser import parse_cvss_from_text
